@@ -12,6 +12,7 @@ Not decided: round-trip equality as values; arithmetic on hostile counts beyond 
 from engine.cfgq import call_sites, paths_avoiding, guard_atoms, dominating_guards
 from engine.shape import Keyer, short
 from engine.facts import AnalysisBroken
+from engine.evalmini import Interp, Obj, OutOfFragment, NOT_HANDLED
 
 UNITS = ['RSlang2']
 NS = 'ccl::object::(anonymous namespace)::'
@@ -55,7 +56,7 @@ def check(db, rep):
     rep.explanation = ('Writer/reader shape agreement of the compact encoding (mirror dispatch, same type and same cell partition for the empty placeholder, '
                        'same tuple index range, cardinality cell + rows) and the bounds discipline of the unpacker, from the typed AST/CFG.')
     fn = lambda n: db.fn(n)
-    r1 = rep.rule('r1', 'SHAPE: packer and unpacker agree on dispatch, empty placeholder (same type, same cells), tuple range and set layout', 7)
+    r1 = rep.rule('r1', 'SHAPE: packer and unpacker agree on dispatch, empty placeholder (same type, same cells), tuple range and set layout', 6)
 
     # dispatch agreement
     cc = fn(P + '::CreateCompactFrom')
@@ -98,33 +99,26 @@ def check(db, rep):
                 ab.stmts[a_call[0]['args'][0]].get('txt', ''), ub.stmts[s_call[0]['args'][0]].get('txt', '')))
     else:
         r1.violation('empty-argument', '%s:%d' % (ub.file, ub.line), 'empty sets are not written with AddEmpty and skipped with SkipEmpty exactly once each')
-    parts = {}
-    for name, f, action in (('AddEmpty', ae, 'emplace_back'), ('SkipEmpty', se, '++pos_y')):
-        lams = db.lambdas_in(f)
-        if len(lams) != 1:
-            r1.broken('%s: visitor lambda not found' % name)
-            continue
-        cases = _switch_cases(lams[0], lams[0].stmts[lams[0].body])
-        if cases is None:
-            r1.broken('%s: switch not found' % name)
-            continue
-        parts[name] = {k: sum(1 for a in v if a == action) for k, v in cases.items()}
-        # the visitor must be applied to the whole type (ConstVisit on the parameter)
-        cv = [n for n in f.calls() if (n.get('cs') or '').endswith('::ConstVisit')]
-        if not cv:
-            r1.violation(name + ':visit', '%s:%d' % (f.file, f.line), '%s does not visit every level of the type (Typification::ConstVisit)' % name)
-    hd = db.fn('ccl::object::SDCompact::CreateHeader')
-    hl = db.lambdas_in(hd)
-    if len(hl) == 1:
-        hc = _switch_cases(hl[0], hl[0].stmts[hl[0].body])
-        parts['CreateHeader'] = {k: sum(1 for a in v if a in ('push_back', 'emplace_back')) for k, v in (hc or {}).items()}
-    want = {'basic': 1, 'collection': 1, 'tuple': 0}
-    for name, part in parts.items():
-        got = {k: part.get(k, 0) for k in want}
-        if got == want:
-            r1.ok('cells:' + name, 'one cell per basic and per collection level, none for tuples')
+    # cells written / skipped / described for a family of type shapes (symbolic types, abstract interpretation of the three routines)
+    fam = _type_family()
+    rep.note('type_shapes_evaluated', len(fam))
+    try:
+        bad = None
+        for t in fam:
+            w = _cells(db, 'AddEmpty', ae, t) if t['s'] == 'collection' else None
+            k = _cells(db, 'SkipEmpty', se, t) if t['s'] == 'collection' else None
+            h = _cells(db, 'CreateHeader', db.fn('ccl::object::SDCompact::CreateHeader'), t)
+            want = _count(t)
+            if bad is None and t['s'] == 'collection' and (w != want or k != want):
+                bad = ('for the empty set of type %s the packer writes %s cell(s) and the unpacker skips %s (one per basic and per set level = %d)' % (_show(t), w, k, want), t)
+            if bad is None and h != want:
+                bad = ('CreateHeader describes %s column(s) for type %s, the encoding has %d' % (h, _show(t), want), t)
+        if bad:
+            r1.violation('cells', '%s:%d' % (se.file, se.line), bad[0] + ': values following that placeholder are decoded from the wrong column')
         else:
-            r1.violation('cells:' + name, 'ccl/rslang/src/SDataCompact.cpp', '%s handles the levels of a type as %s, the encoding uses one cell per basic and per collection level and none for tuples' % (name, got))
+            r1.ok('cells', 'AddEmpty, SkipEmpty and CreateHeader agree on the number of cells for %d type shapes (depth <= 3, tuples of arity 2-3)' % len(fam), '%s:%d' % (se.file, se.line))
+    except OutOfFragment as e:
+        r1.broken('cell count routines outside the summarised fragment: %s' % e)
 
     # tuples: same index range
     at = fn(P + '::AddTupleData')
@@ -180,15 +174,52 @@ def check(db, rep):
     # UnpackFor: dispatch dominated by the bounds test
     disp = call_sites(uf, lambda n: n.get('cs') in (U + '::UnpackBasic', U + '::UnpackBool', U + '::UnpackTuple'))
     ok = bool(disp)
+    Kf = Keyer(uf)
     for p, n in disp:
-        conds = [(c.get('txt', ''), pol) for c, pol in dominating_guards(uf, p)]
-        txt = ' '.join(c for c, pol in conds if pol is False)
-        if not ('pos_x' in txt and 'pos_y' in txt and 'size' in txt):
+        atoms = set()
+        work = list(dominating_guards(uf, p))
+        while work:
+            c, pol = work.pop()
+            c2 = uf.strip(c)
+            if c2['k'] == 'BinaryOperator' and c2.get('op') == '||' and pol is False:
+                work += [(x, False) for x in uf.children(c2)]
+                continue
+            kk = Kf.key(c2)
+            if pol is False and isinstance(kk, tuple) and kk[0] == 'Bop' and kk[1] == '<=':
+                atoms.add((repr(kk[3]), repr(kk[4])))
+        rows = any("'input'" in a and 'at' not in a and "'pos_x'" in b for a, b in atoms)
+        cols = any("'at'" in a and "'pos_x'" in a and "'pos_y'" in b for a, b in atoms)
+        if not (rows and cols):
             ok = False
     if ok:
         r2.ok('UnpackFor:bounds', 'row and column checked against size before any read', '%s:%d' % (uf.file, uf.line))
     else:
         r2.violation('UnpackFor:bounds', '%s:%d' % (uf.file, uf.line), 'a decoding routine is reachable without the test size(input) <= pos_x || size(input.at(pos_x)) <= pos_y')
+    # every double-indexed read happens with the cursor UnpackFor has just checked: no write to pos_x/pos_y may precede it in its function
+    for name in ('UnpackBasic', 'UnpackBool', 'UnpackSet'):
+        g = fn(U + '::' + name)
+        reads = [n for n in g.calls() if (n.get('cs') or '').endswith('::at') and 'obj' in n and (g.stmts[n['obj']].get('cs') or g.strip(g.stmts[n['obj']]).get('cs') or '').endswith('::at')]
+        writes = []
+        for n in g.walk():
+            tgt = None
+            if n['k'] == 'UnaryOperator' and n.get('op') in ('++', '--'):
+                tgt = g.strip(g.children(n)[0])
+            elif n['k'] in ('BinaryOperator', 'CompoundAssignOperator') and (n.get('op') == '=' or n['k'] == 'CompoundAssignOperator'):
+                tgt = g.strip(g.children(n)[0])
+            if tgt is not None and tgt.get('member') in ('pos_x', 'pos_y'):
+                writes.append(n)
+        inst = 'fresh-cursor:' + name
+        badr = None
+        for r_ in reads:
+            rp = g.position_of(r_)
+            for w in writes:
+                wp = g.position_of(w)
+                if wp is not None and rp is not None and rp in g.reach(wp) and rp != wp:
+                    badr = (r_, w)
+        if badr:
+            r2.violation(inst, g.loc(badr[0]), '`%s` reads the table after the cursor was moved by `%s` without a new bounds test: a ragged or short row throws std::out_of_range' % (badr[0].get('txt', '')[:50], badr[1].get('txt', '')[:30]))
+        else:
+            r2.ok(inst, '%d table read(s), all at the cursor checked by UnpackFor' % len(reads), '%s:%d' % (g.file, g.line))
     # Unpack: trailing rows
     un = fn(U + '::Unpack')
     rets = [(p, r) for p, r in un.return_sites() if un.return_literal(r) is None]
@@ -241,3 +272,98 @@ def _tuple_range(f, side):
         if ok:
             return True, '0..Arity with Component(PR_START+i)'
     return False, '%s loop from %s while %s indexing %s' % (side, short(start, 40), short(cond, 80), sorted(idxs))
+
+
+# ---------------------------------------------------------------------------------------------- symbolic types
+def _T(s, base=None, comps=None):
+    return Obj(__kind__='typ', s=s, base=base, comps=comps or [])
+
+
+def _type_family():
+    b = _T('basic')
+    d1 = [_T('collection', base=b), _T('tuple', comps=[b, b])]
+    d0 = [b]
+    lvl = d0 + d1
+    d2 = [_T('collection', base=t) for t in d1] + [_T('tuple', comps=[x, y]) for x in lvl for y in lvl if not (x is b and y is b)] + [_T('tuple', comps=[b, b, _T('collection', base=b)])]
+    lvl2 = lvl + d2
+    d3 = [_T('collection', base=t) for t in d2]
+    return lvl2 + d3
+
+
+def _count(t):
+    if t['s'] == 'basic':
+        return 1
+    if t['s'] == 'collection':
+        return 1 + _count(t['base'])
+    return sum(_count(c) for c in t['comps'])
+
+
+def _show(t):
+    if t['s'] == 'basic':
+        return 'X'
+    if t['s'] == 'collection':
+        return 'B(%s)' % _show(t['base'])
+    return '(' + '*'.join(_show(c) for c in t['comps']) + ')'
+
+
+def _cells(db, name, f, t):
+    st = {e['name']: e['val'] for e in db.enum('ccl::rslang::StructureType')['enumerators']}
+
+    def on_call(it, fn, n, env):
+        cs = n.get('cs') or ''
+        S = fn.stmts
+        last = cs.split('::')[-1]
+        if cs.startswith('ccl::rslang::Typification::') or cs.startswith('ccl::rslang::Structured::'):
+            o = it.eval(fn, S[n['obj']], env) if 'obj' in n else None
+            if isinstance(o, tuple) and len(o) == 2 and o[0] == 'ptr':
+                o = o[1]
+            if isinstance(o, Obj) and o.get('__kind__') == 'typ':
+                if last == 'Structure':
+                    return st[o['s']]
+                if last in ('IsCollection', 'IsTuple', 'IsElement'):
+                    return o['s'] == {'IsCollection': 'collection', 'IsTuple': 'tuple', 'IsElement': 'basic'}[last]
+                if last == 'B':
+                    return Obj(__kind__='echelon-bool', typ=o)
+                if last == 'T':
+                    return Obj(__kind__='echelon-tuple', typ=o)
+                if last == 'E':
+                    return Obj(baseID=b'X1')
+                if last == 'ConstVisit':
+                    vis = it.eval(fn, S[n['args'][0]], env)
+
+                    def walk(x):
+                        it.call_lambda(vis, [x])
+                        if x['s'] == 'collection':
+                            walk(x['base'])
+                        elif x['s'] == 'tuple':
+                            for c in x['comps']:
+                                walk(c)
+                    walk(o)
+                    return None
+        if cs.startswith('ccl::rslang::EchelonBool::') and 'obj' in n:
+            o = it.eval(fn, S[n['obj']], env)
+            if last == 'Base':
+                return o['typ']['base']
+        if cs.startswith('ccl::rslang::EchelonTuple::') and 'obj' in n:
+            o = it.eval(fn, S[n['obj']], env)
+            if last == 'Arity':
+                return len(o['typ']['comps'])
+            if last == 'Component':
+                i = it.eval(fn, S[n['args'][0]], env)
+                if not (1 <= i <= len(o['typ']['comps'])):
+                    raise OutOfFragment('tuple component %d of %d' % (i, len(o['typ']['comps'])))
+                return o['typ']['comps'][i - 1]
+            if last in ('begin', 'end'):
+                return ('it', o['typ']['comps'], 0 if last == 'begin' else len(o['typ']['comps']))
+        return NOT_HANDLED
+    it = Interp(db, on_call=on_call, max_steps=100000)
+    if name == 'AddEmpty':
+        this = Obj(compact=[[]])
+        it.call(f, [t], this)
+        return len(this['compact'][-1])
+    if name == 'SkipEmpty':
+        this = Obj(pos_x=0, pos_y=0, input=[[]])
+        it.call(f, [t], this)
+        return this['pos_y']
+    res = it.call(f, [t])
+    return len(res) if isinstance(res, list) else None
